@@ -427,6 +427,33 @@ class ProgGen:
             wf = gen_wf(r, gen_duration(r, spec, self.big), dmm_floor(spec, ws2), 0.0)
         self.pending.append({"op": "add_dmm_detuning", "wf": wf, "ch": name2})
 
+    def _motif_equalize(self, basis: str) -> None:
+        """After a phase shift left the atoms of a basis with different references: shift the others so that all
+        references are equal again (each shift acts at its own atom's last-used time, so the *times* of the latest
+        shifts differ), then a multi-target pulse with 'no-delay' on a global / multi-target channel of that basis."""
+        if "equalize" not in self.motifs or self.pending or self.mappable:
+            return
+        r = self.rng
+        if r.random() >= self.motifs["equalize"]:
+            return
+        d = self.refs.get(basis, {})
+        vals = {q: round(d.get(q, 0.0) % TWO_PI, 9) for q in self.qids}
+        groups: dict = {}
+        for q, v in vals.items():
+            groups.setdefault(v, []).append(q)
+        if len(groups) < 2:
+            return
+        target = pick(r, sorted(groups))
+        for v, qs in sorted(groups.items()):
+            if v != target:
+                self.pending.append({"op": "phase_shift", "phi": r6((target - v) % TWO_PI), "targets": qs, "basis": basis})
+        multi = [n for n, c in self.chans.items() if c["basis"] == basis and not c["dmm"] and not c["eom"]
+                 and not c.get("slm_wait") and len(c["targets"]) >= 2]
+        if multi:
+            n = pick(r, multi)
+            self.pending.append({"op": "add", "pulse": gen_pulse(r, self.chans[n]["spec"], phase=self._phase(n), big=False),
+                                 "ch": n, "protocol": "no-delay"})
+
     # -- helpers -------------------------------------------------------------
     def _style(self, op: dict) -> dict:
         if self.styles:
@@ -772,6 +799,7 @@ class ProgGen:
             if k == "phase_shift_index" and op.get("targets"):
                 tg = [self.qids[i] for i in tg]
             self._bump(op.get("basis", "digital"), tg, op["phi"])
+            self._motif_equalize(op.get("basis", "digital"))
         elif k == "measure":
             self.measured = True
         elif k == "set_magnetic_field":
